@@ -114,13 +114,14 @@ func init() {
 		Rule: "rounds: 0-6 subscriptions over keys {A,B} x element types {int,string,any,error,*T,send-only int} x {no context, live context, context cancelled before the publish, context cancelled during it; half of the live/cancelled-during ones made with SubscribeCancel (nil or live parent), cancelled through the function it returned and unsubscribed by the library} x target {buffered and empty, unbuffered with a receiver arriving at a random step, never ready}, one Publish/PublishContext(A, v) per round with v in {int,string,*T,error,nil,float,typed nil pointer}, " +
 			"the readiness/cancellation events (and an optional cancellation of the publish context) fired in a random order while the publish is in flight; oracle: receipts per subscription vs an independent eligibility table (Go assignability; untyped nil => nilable kinds): eligible-and-ready-and-never-cancelled => exactly 1, ineligible => 0, nobody > 1, " +
 			"Publish does not return (publish context live) before an eligible never-cancelled subscription's receiver has even started, Publish returns within the bound once every eligible subscription has received or been cancelled, no panic for any value; registry: duplicate Subscribe (incl. SubscribeCancel on an existing subscription) / unmatched Unsubscribe panic and leave deliveries unchanged, nothing is delivered after Unsubscribe returned; " +
-			"concurrent-publishers: one publisher per key publishing an increasing sequence, all at once through one Notifier, several ready subscriptions per key: each receives exactly its key's sequence. unsubscribe-during-publish: a target unsubscribed (and re-subscribed under another key) while a publish is parked on it must not receive that publish's value afterwards. non-trivial = a round had at least one eligible and one ineligible subscription or an event during the publish; distinct = distinct (subscription plan, value, event order) signatures",
+			"readiness-order: 2-5 unbuffered subscriptions (with or without contexts) served by ONE goroutine that receives from them one after the other in a random fixed order, so that each target becomes ready only after the previous one was delivered: Publish returns and each receives once. concurrent-publishers: one publisher per key publishing an increasing sequence, all at once through one Notifier, several ready subscriptions per key: each receives exactly its key's sequence. unsubscribe-during-publish: a target unsubscribed (and re-subscribed under another key) while a publish is parked on it must not receive that publish's value afterwards. non-trivial = a round had at least one eligible and one ineligible subscription or an event during the publish; distinct = distinct (subscription plan, value, event order) signatures",
 		Assumptions: []string{"a subscription whose context is cancelled while the publish is in flight may receive 0 or 1 copies", "map iteration order inside the library supplies the internal arrangement; notifier.publish.select is delayed to stretch the gaps between deliveries"},
 		Families: []core.Family{
 			{Name: "rounds", N: core.TierN(3000, 160000), Batch: 50, Run: c15Round},
 			{Name: "registry", N: core.TierN(120, 4800), Batch: 20, Run: c15Registry},
 			{Name: "unsubscribe-during-publish", N: core.TierN(32, 1280), Batch: 8, Run: c15UnsubDuring},
 			{Name: "concurrent-publishers", N: core.TierN(16, 640), Batch: 4, Run: c15ConcurrentPublishers},
+			{Name: "readiness-order", N: core.TierN(200, 8000), Batch: 50, Run: c15ReadinessOrder},
 		},
 	})
 }
@@ -593,4 +594,60 @@ func c15ConcurrentPublishers(c *core.Ctx) {
 	c.Op("publish", keys*count)
 	c.Nontrivial()
 	c.Sig("concurrent-publishers", keys, subsPer)
+}
+
+// c15ReadinessOrder: the targets of one key become ready one after the other, in an order the Notifier cannot know:
+// a single goroutine receives from them sequentially. Publish has to deliver to whichever target is ready.
+func c15ReadinessOrder(c *core.Ctx) {
+	var n bigbuff.Notifier
+	k := 2 + c.Rng.IntN(4)
+	withCtx := c.Rng.IntN(3) // 0: plain Subscribe everywhere, 1: contexts everywhere, 2: mixed
+	chans := make([]chan int, k)
+	for i := range chans {
+		chans[i] = make(chan int)
+		if withCtx == 1 || (withCtx == 2 && c.Rng.IntN(2) == 0) {
+			n.SubscribeContext(context.Background(), "k", chans[i])
+		} else {
+			n.Subscribe("k", chans[i])
+		}
+	}
+	order := c.Rng.Perm(k)
+	got := make([]int, k)
+	received := core.Go(func() {
+		for _, i := range order {
+			got[i] = <-chans[i]
+		}
+	})
+	var pctx context.Context
+	if c.Rng.IntN(2) == 0 {
+		pctx = context.Background()
+	}
+	published := core.Go(func() {
+		if pctx != nil {
+			n.PublishContext(pctx, "k", 7)
+		} else {
+			n.Publish("k", 7)
+		}
+	})
+	desc := fmt.Sprintf("%d unbuffered subscriptions (contexts: %d), one goroutine receiving in the order %v, publish context: %v", k, withCtx, order, pctx != nil)
+	if !core.AwaitDone(published, 5000) {
+		c.Violate("publish-blocked", "Publish did not return although a target was ready at every moment (each becomes ready once the previous one has been delivered); %s", desc)
+		c.SetDump(core.DumpAll())
+		return
+	}
+	if !core.AwaitDone(received, 3000) {
+		c.Violate("eligible-missed", "Publish returned but not every subscription has received; %s", desc)
+		return
+	}
+	for i, v := range got {
+		if v != 7 {
+			c.Violate("wrong-value", "subscription %d received %d, want 7; %s", i, v, desc)
+		}
+	}
+	for i := range chans {
+		n.Unsubscribe("k", chans[i])
+	}
+	c.Op("publish", 1)
+	c.Nontrivial()
+	c.Sig("readiness-order", k, withCtx, order, pctx != nil)
 }
